@@ -7,7 +7,7 @@ mkdir -p .build evidence replays
 (cd extract && go build -o ../.build/extract .)
 ./.build/extract "${VERIF_REPO:-/repo}" lean/Babble .build/facts.json
 (cd lean && lake build Babble driver)
-cp "${VERIF_REPO:-/repo}/go.sum" .build/harness.sum
+cp harness/go.sum .build/harness.sum
 sed "s#=> /repo#=> ${VERIF_REPO:-/repo}#" harness/go.mod > .build/harness.mod
 (cd harness && go build -tags verif -modfile ../.build/harness.mod -o ../.build/harness .)
 echo "setup done"
